@@ -1,4 +1,5 @@
 import Sourmash.Lemmas.SetOpsMoreB
+import Sourmash.Lemmas.SetOpsSigRun
 /-! Property C03 — sketch operations mirror set operations on the underlying data.
 
 Property theorems only (helper lemmas: `Lemmas/SetOps*.lean`).  They are about the code-shaped model
@@ -228,5 +229,156 @@ theorem isect_num (k : Kind) (a b : Sk) (wa : a.WF) (wb : b.WF) (hn : a.num ≠ 
   intersection_num k wa wb hn hm hsz hc
 example : exN.WF ∧ exN.num ≠ 0 ∧ exN.maxHash = 0 ∧ exN.mins.length ≤ exN.num ∧
     checkCompatible exN exN = .ok () := ⟨exN_wf, by decide, rfl, by decide, by simp [checkCompatible]⟩
+
+/-! ### T-sig_add — `Signature::add_sequence` / `add_protein` over several sketches
+
+`Model/SigAdd.lean`: `f s` is the call on ONE sketch (sketch afterwards, `Err` if any) for the fixed
+arguments of the signature-level call; `serial` is the `cfg(not(parallel))` loop; `parallel f sigs evs`
+is the rayon variant under the schedule `evs` — an arbitrary list of "flag read for item i" /
+"call on item i returned" events.  All statements are for every `f`, hence for `sketchAdd` with the
+`SeqToHashes` stream and `add_hash` of any sketch type. -/
+section SigAdd
+open SigAdd
+variable {σ ε : Type}
+
+/-- example: "sketches" are hash lists, the call appends 7, and fails on the sketch `[2]` after
+appending 9 -/
+def exF : List Nat → List Nat × Option String :=
+  fun s => if s = [2] then (s ++ [9], some "InvalidDNA") else (s ++ [7], none)
+/-- the same without a failing sketch -/
+def exG : List Nat → List Nat × Option String := fun s => (s ++ [7], none)
+
+/-- **T-sig_add, each task touches only its own sketch**: whatever the scheduler does (any event
+list, finished or not), the signature keeps its length and every sketch is either untouched or
+exactly what the single-sketch call makes of it — never anything that depends on another sketch
+or on the order of events. -/
+theorem sig_add_each (f : σ → σ × Option ε) (sigs : List σ) (evs : List Ev) :
+    (parallel f sigs evs).1.length = sigs.length ∧
+    ∀ (j : Nat) (s0 : σ), sigs[j]? = some s0 →
+      (parallel f sigs evs).1[j]? = some s0 ∨ (parallel f sigs evs).1[j]? = some (f s0).1 := by
+  have h := inv_run f sigs evs
+  refine ⟨by simp [parallel, Par.sketches, h.len], ?_⟩
+  intro j s0 h0
+  have hlt : j < (exec f (Par.init sigs) evs).tasks.length := by
+    rw [h.len]; exact (List.getElem?_eq_some_iff.1 h0).1
+  have hj := List.getElem?_eq_getElem hlt
+  have hok := h.slot j s0 _ h0 hj
+  simp only [parallel, Par.sketches, List.getElem?_map, hj, Option.map_some, Option.some.injEq]
+  generalize (exec f (Par.init sigs) evs).tasks[j] = sl at hok
+  obtain ⟨s, st⟩ := sl
+  cases st <;> simp_all [SlotOK]
+
+/-- **T-sig_add** (the result is the pointwise single-sketch add, for every schedule): if the call
+fails on no sketch then under EVERY schedule that lets the parallel iterator return, the signature
+afterwards is the list of the single-sketch results and the call returns `Ok(())`. -/
+theorem sig_add (f : σ → σ × Option ε) (sigs : List σ) (evs : List Ev)
+    (hok : ∀ s ∈ sigs, (f s).2 = none) (hc : (exec f (Par.init sigs) evs).complete = true) :
+    parallel f sigs evs = (sigs.map (fun s => (f s).1), none) := by
+  have h := inv_run f sigs evs
+  have hr := inv_no_fail h hok
+  have := (inv_result_none h hc hr).1
+  simp only [parallel, this, hr]
+example : (∀ s ∈ [[1], [3], [5]], (exG s).2 = none) ∧
+    (exec exG (Par.init [[1], [3], [5]])
+      [.check 2, .check 0, .finish 0, .check 1, .finish 2, .finish 1]).complete = true :=
+  ⟨by decide, by decide⟩
+
+/-- `Ok(())` is returned exactly when no single-sketch call fails — under every schedule. -/
+theorem sig_add_ok_iff (f : σ → σ × Option ε) (sigs : List σ) (evs : List Ev)
+    (hc : (exec f (Par.init sigs) evs).complete = true) :
+    (parallel f sigs evs).2 = none ↔ ∀ s ∈ sigs, (f s).2 = none := by
+  have h := inv_run f sigs evs
+  exact ⟨fun hr => (inv_result_none h hc hr).2, fun hok => inv_no_fail h hok⟩
+example : (exec exF (Par.init [[1], [2], [5]]) (seqTrace [2, 1, 0])).complete = true := by decide
+
+/-- **T-sig_add, schedule independence, as asked for by the property**: the items may be taken in
+ANY order (every permutation of the task order; more generally any order that reaches every sketch) —
+the final signature is the same. -/
+theorem sig_add_any_order (f : σ → σ × Option ε) (sigs : List σ) (o₁ o₂ : List Nat)
+    (hok : ∀ s ∈ sigs, (f s).2 = none)
+    (h₁ : ∀ j, j < sigs.length → j ∈ o₁) (h₂ : ∀ j, j < sigs.length → j ∈ o₂) :
+    parallel f sigs (seqTrace o₁) = parallel f sigs (seqTrace o₂) := by
+  rw [sig_add f sigs _ hok (seq_complete f sigs o₁ h₁), sig_add f sigs _ hok (seq_complete f sigs o₂ h₂)]
+/-- T-sig_add for a permutation `π` of the task order `0 … n-1`: the pointwise add, whatever `π`. -/
+theorem sig_add_perm (f : σ → σ × Option ε) (sigs : List σ) (π : List Nat)
+    (hok : ∀ s ∈ sigs, (f s).2 = none) (hπ : π.Perm (List.range sigs.length)) :
+    parallel f sigs (seqTrace π) = (sigs.map (fun s => (f s).1), none) := by
+  apply sig_add f sigs _ hok
+  apply seq_complete
+  intro j hj
+  exact hπ.mem_iff.2 (List.mem_range.2 hj)
+example : (∀ s ∈ [[1], [3], [5]], (exG s).2 = none) ∧ [2, 0, 1].Perm (List.range [[1], [3], [5]].length) :=
+  ⟨by decide, by decide⟩
+
+/-- The serial variant (`cfg(not(feature = "parallel"))`) is the parallel variant under the in-order
+schedule (what a pool of one thread runs): same sketches, same result, failing or not. -/
+theorem sig_add_serial (f : σ → σ × Option ε) (sigs : List σ) :
+    parallel f sigs (seqTrace (List.range sigs.length)) = serial f sigs := inorder_serial f sigs
+
+/-- … and when nothing fails it is the pointwise add as well. -/
+theorem sig_add_serial_ok (f : σ → σ × Option ε) (sigs : List σ) (hok : ∀ s ∈ sigs, (f s).2 = none) :
+    serial f sigs = (sigs.map (fun s => (f s).1), none) := serial_ok f sigs hok
+example : ∀ s ∈ [[1], [3], [5]], (exG s).2 = none := by decide
+
+/-- **Failure, serial variant** (what the code does; the property's "a failed operation leaves both
+operands unchanged" is about two-operand operations, `add_sequence` gives no such guarantee): the
+sketches before the first failing one are fully updated, the failing one keeps what its own call
+had added before the error (`sig_add_feed_err`), the sketches after it are untouched, and the first
+failing sketch's error is returned. -/
+theorem sig_add_serial_fail (f : σ → σ × Option ε) (pre : List σ) (s : σ) (post : List σ) (e : ε)
+    (hpre : ∀ x ∈ pre, (f x).2 = none) (hs : (f s).2 = some e) :
+    serial f (pre ++ s :: post) = (pre.map (fun x => (f x).1) ++ (f s).1 :: post, some e) :=
+  serial_fail f pre s post e hpre hs
+example : (∀ x ∈ [[1]], (exF x).2 = none) ∧ (exF [2]).2 = some "InvalidDNA" := ⟨by decide, by decide⟩
+
+/-- **Failure, parallel variant** (what the code does): under every schedule the error returned
+is the error of a sketch whose call was made (that sketch holds its partial update); together with
+`sig_add_each` — every other sketch is untouched or fully updated, WHICH of the two is up to the
+scheduler — and `sig_add_ok_iff` — some error is returned as soon as any sketch fails.  Only the
+one-thread schedule is deterministic (`sig_add_serial`). -/
+theorem sig_add_fail (f : σ → σ × Option ε) (sigs : List σ) (evs : List Ev) (e : ε)
+    (hr : (parallel f sigs evs).2 = some e) :
+    ∃ (j : Nat) (s0 : σ), sigs[j]? = some s0 ∧ (f s0).2 = some e ∧
+      (parallel f sigs evs).1[j]? = some (f s0).1 := by
+  have h := inv_run f sigs evs
+  obtain ⟨j, sl, hj, hd⟩ := result_some hr
+  have hlt : j < sigs.length := by
+    rw [← h.len]; exact (List.getElem?_eq_some_iff.1 hj).1
+  have h0 : sigs[j]? = some sigs[j] := List.getElem?_eq_getElem hlt
+  have hok := h.slot j _ sl h0 hj
+  simp only [SlotOK, hd] at hok
+  refine ⟨j, sigs[j], h0, hok.2.symm, ?_⟩
+  simp [parallel, Par.sketches, hj, hok.1]
+example : (parallel exF [[1], [2], [5]] (seqTrace [2, 1, 0])).2 = some "InvalidDNA" := by decide
+
+/-- the two outcomes of one failing call under two schedules really differ (the schedule dependence
+of the failure case is not an artefact of the statement) -/
+example : (parallel exF [[1], [2], [5]] (seqTrace [0, 1, 2])).1 = [[1, 7], [2, 9], [5]] ∧
+    (parallel exF [[1], [2], [5]] (eagerTrace [0, 1, 2])).1 = [[1, 7], [2, 9], [5, 7]] := by decide
+
+/-- **One sketch, `Ok`**: `sketch.add_sequence` feeds the non-zero hashes of the stream, in order, to
+`add_hash` … -/
+theorem sig_add_feed_ok (addHash : σ → Nat → σ) (s : σ) (hs : List Nat) :
+    feed (ε := ε) addHash s (hs.map .ok) = ((hs.filter (· ≠ 0)).foldl addHash s, none) := by
+  induction hs generalizing s with
+  | nil => rfl
+  | cons h t ih =>
+    by_cases h0 : h = 0
+    · simp [feed, h0, ih]
+    · simp [feed, h0, ih]
+
+/-- … **and on `Err`** the hashes that precede the error stay in the sketch (the failing sketch is
+left partially updated; nothing after the error is looked at). -/
+theorem sig_add_feed_err (addHash : σ → Nat → σ) (s : σ) (hs : List Nat) (e : ε)
+    (rest : List (Except ε Nat)) :
+    feed addHash s (hs.map .ok ++ .error e :: rest) = ((hs.filter (· ≠ 0)).foldl addHash s, some e) := by
+  induction hs generalizing s with
+  | nil => rfl
+  | cons h t ih =>
+    by_cases h0 : h = 0
+    · simp [feed, h0, ih]
+    · simp [feed, h0, ih]
+
+end SigAdd
 
 end Sourmash.C03
